@@ -16,8 +16,9 @@ open Vanguard
 
 structure FieldD where
   name : Bytes
-  repeated : Bool
+  repeated : Bool             -- a list (`IsList`)
   message : Option Bytes      -- message type name; none = scalar
+  isMap : Bool := false       -- a map: repeated cardinality, but not a list
   deriving Repr, DecidableEq
 
 structure MethodD where
@@ -197,7 +198,7 @@ def resolvePath (sch : Schema) : Nat → Bytes → List Bytes → Option (List F
     | none => none
     | some f =>
       if rest.isEmpty then some [f] else
-      if f.repeated then none else
+      if f.repeated || f.isMap then none else      -- `Cardinality() == Repeated`
       match f.message with
       | none => none
       | some child => (resolvePath sch fuel child rest).map (f :: ·)
